@@ -150,6 +150,30 @@ func c13Exec(s map[string]string) map[string]any {
 	}); p != "" || err != nil || tb == nil {
 		return bad(fmt.Sprintf("open: %v %v", p, err))
 	}
+	if s["retable"] == "replace" && !(s["kind"] == "mbr" && start+4+size >= 1<<32) {
+		// the caller keeps the table object: look the partitions up, move partition 1 by replacing its
+		// entry in the same object, apply the table again
+		var rerr error
+		if p := fsx.Catch(func() {
+			dk.GetPartition(1)
+			dk.GetPartition(2)
+			switch tt := tb.(type) {
+			case *gpt.Table:
+				np := *tt.Partitions[0]
+				np.Start += 4
+				np.End += 4
+				tt.Partitions[0] = &np
+			case *mbr.Table:
+				np := *tt.Partitions[0]
+				np.Start += 4
+				tt.Partitions[0] = &np
+			}
+			rerr = dk.Partition(tb)
+		}); p != "" || rerr != nil {
+			return bad(fmt.Sprintf("re-applying the table: %v %v", p, rerr))
+		}
+		start += 4
+	}
 	// ---- write
 	rl := map[string]int64{"zero": 0, "minus1": psize - 1, "exact": psize, "plus1": psize + 1}[s["rlen"]]
 	ch := map[string]int{"whole": 0, "one": 1, "c513": 513, "pssp1": int(pss) + 1}[s["chunk"]]
@@ -224,7 +248,7 @@ func c13Exec(s map[string]string) map[string]any {
 func c13Events(c *core.Ctx) (tuples []map[string]string, events []map[string]any, ok bool) {
 	maxDev := 3
 	if c.Tier == "thorough" {
-		maxDev = 8
+		maxDev = 9
 	}
 	cfg := fmt.Sprintf("SPECIFICATION Spec\nCONSTANT MaxDev = %d\nINVARIANT Emit\nCHECK_DEADLOCK FALSE\n", maxDev)
 	gen, err := tlc.Run(tlc.Opts{Module: "PartIO_Gen", Config: "gen.cfg", Workers: 1, Files: map[string][]byte{"gen.cfg": []byte(cfg)}, Timeout: 15 * time.Minute})
@@ -255,7 +279,7 @@ func c13Events(c *core.Ctx) (tuples []map[string]string, events []map[string]any
 }
 
 func C13(c *core.Ctx) {
-	c.Rule = "case = one geometry tuple of PartIO.tla (GPT/MBR x start class incl. start*sector >= 2^32 and start = 2^32-1 sectors x size x logical 512/4096 x physical 512/4096 (pss != lss) x reader length {0,size-1,size,size+1} x chunking {whole,1 byte,513,pss+1} x content {non-zero pattern, all zeroes, pattern with zeroed physical sectors} streamed onto non-zero previous content), all tuples within MaxDev deviations of the base tuple (quick 3, thorough 8 = full product), enumerated by TLC; every tuple is non-trivial (distinct key = tuple); plus the composition behaviours of Disk.tla (raw clause of Disk_Trace: WritePartitionContents / ReadPartitionContents / CopyPartitionRaw between three slots of one GPT or MBR disk, interleaved with table rewrites and filesystem traffic)"
+	c.Rule = "case = one geometry tuple of PartIO.tla (GPT/MBR x start class incl. start*sector >= 2^32 and start = 2^32-1 sectors x size x logical 512/4096 x physical 512/4096 (pss != lss) x reader length {0,size-1,size,size+1} x chunking {whole,1 byte,513,pss+1} x content {non-zero pattern, all zeroes, pattern with zeroed physical sectors} streamed onto non-zero previous content x table object re-applied after partition 1 was replaced in it), all tuples within MaxDev deviations of the base tuple (quick 3, thorough 9 = full product), enumerated by TLC; every tuple is non-trivial (distinct key = tuple); plus the composition behaviours of Disk.tla (raw clause of Disk_Trace: WritePartitionContents / ReadPartitionContents / CopyPartitionRaw between three slots of one GPT or MBR disk, interleaved with table rewrites and filesystem traffic)"
 	c.Assumptions = []string{"sparse pattern-filled memdev; byte counts are decimal strings for TLC", "CopyPartitionRaw is exercised with a target at least as large as the source"}
 	tuples, events, ok := c13Events(c)
 	if !ok {
